@@ -607,6 +607,14 @@ def c17_state_x_cmd(params, tier):
         b.send(X, type="list")
         b.h.append(["send", X, dict(cmd)])      # and the same command once more
         b.send(X, type="ping", ping="again")
+        # the connection is still usable for what its state entitles it to, naming its objects explicitly
+        if st in ("opened", "allocated+claimed+opened") and cmd.get("type") not in ("close",):
+            b.send(X, type="add", phase="p", body="c17-after-%d" % ci)
+            if st == "allocated+claimed+opened" and cmd.get("type") != "release":
+                b.send(X, type="release", nameplate="5")
+            b.send(X, type="close", mailbox="mQ", mood="happy")
+        elif st == "claimed" and cmd.get("type") not in ("release",):
+            b.send(X, type="release", nameplate="5")
         out.append(("c17:%s:%d" % (st, ci), b.h, cfgs[p["cfg"]], {}))
     return out
 
